@@ -2,7 +2,9 @@
 
 Obligations: coq/Properties/C09.v (abstraction `abs` of Model/HeapSpec.v: the ordered list of
 (name, repetition) of an element; add appends, replace_child replaces in place, remove removes exactly
-the addressed one; the by-name view is the list grouped by name; the encoding is a function of it).
+the addressed one; the by-name view is the list grouped by name; the encoding is a function of it;
+the index-addressed whole operations - remove_by_name(name, i) and children.set(name, text, i) with
+Python indexes - refine 'remove / replace-or-append repetition i of the name', lifted to sequences).
 Correspondence: harness/heapcorr.py (histories replayed in the model, state dump per step).
 Oracle: a plain reference model - per element an ordered list of (child name, payload) - is updated
 by the sentence of the property for every successful mutation and compared with the element's real
@@ -270,7 +272,7 @@ def main(argv=None):
     run = Run('C09', argv)
     if run.replay:
         return replay(run)
-    ok = run.build(['Properties/C09.vo'], gen=('params', 'tables'), obligation_files=['Properties/C09.v'] + ['Proofs/HeapRefine.v', 'Proofs/HeapAtomic.v'])
+    ok = run.build(['Properties/C09.vo'], gen=('params', 'tables'), obligation_files=['Properties/C09.v'] + ['Proofs/HeapRefine.v', 'Proofs/HeapAtomic.v', 'Proofs/HeapIndexed.v'])
     if ok:
         run.print_assumptions('Properties.C09', [n for n, _ in theorems_of('Properties/C09.v')])
     rng = run.rng
